@@ -308,6 +308,8 @@ type Exec struct {
 	depth        int
 	callStack    []*ssa.Function
 	deferFrame   []*frame
+	pushed       bool
+	synced       int
 
 	// environment model
 	clockSec  *Term
@@ -336,7 +338,6 @@ func newExec(x *Explorer, ts *TermStore, sv, alt *Solver, prefix []Decision) *Ex
 }
 
 func (e *Exec) runPath() (res *PathResult) {
-	e.sv.Push()
 	res = &PathResult{}
 	defer func() {
 		if r := recover(); r != nil {
@@ -373,7 +374,9 @@ func (e *Exec) runPath() (res *PathResult) {
 				e.attachWitness(res)
 			}
 		}
-		e.sv.Pop()
+		if e.pushed {
+			e.sv.Pop()
+		}
 	}()
 	e.call(e.x.entry, nil)
 	res.Kind = "ok"
@@ -390,6 +393,7 @@ func (e *Exec) stackString() string {
 }
 
 func (e *Exec) attachWitness(res *PathResult) {
+	e.sync()
 	if e.sv.Check() != Sat {
 		return
 	}
@@ -422,7 +426,6 @@ func (e *Exec) input(name string, w uint8) *Term {
 	if !e.inputIx[name] {
 		e.inputIx[name] = true
 		e.inputs = append(e.inputs, inputVar{name, t})
-		e.sv.declare(t)
 	}
 	return t
 }
@@ -439,7 +442,38 @@ func (e *Exec) addPC(c *Term) {
 		return
 	}
 	e.pc = append(e.pc, c)
-	e.sv.Assert(c)
+}
+
+// sync brings the solver up to date with the path condition (lazily: a path
+// that never needs a query never talks to the solver).
+func (e *Exec) sync() {
+	if !e.pushed {
+		e.sv.Push()
+		e.pushed = true
+	}
+	for ; e.synced < len(e.pc); e.synced++ {
+		e.sv.Assert(e.pc[e.synced])
+	}
+}
+
+// forkN chooses a value in 0..n-1 for a fresh (unconstrained) variable: every
+// value is feasible, no solver call is needed.
+func (e *Exec) forkN(v *Term, n int, off int64) int {
+	var k int
+	if e.pos < len(e.decisions) {
+		k = int(e.decisions[e.pos].V)
+		e.pos++
+	} else {
+		for i := n - 1; i >= 1; i-- {
+			alt := append(append([]Decision(nil), e.decisions...), Decision{B: true, V: uint64(i)})
+			e.x.push(alt)
+		}
+		e.decisions = append(e.decisions, Decision{B: true, V: 0})
+		e.pos++
+		k = 0
+	}
+	e.addPC(e.ts.Eq(v, e.ts.Const(v.w, uint64(int64(k)+off))))
+	return k
 }
 
 // branch decides a symbolic condition, forking when both sides are feasible.
@@ -459,6 +493,7 @@ func (e *Exec) branch(c *Term) bool {
 		}
 		return d.B
 	}
+	e.sync()
 	rt := e.sv.CheckWith(c)
 	if rt == Unsat {
 		e.decisions = append(e.decisions, Decision{B: false, Forced: true})
@@ -499,6 +534,7 @@ func (e *Exec) concretize(t *Term, max int, what string) uint64 {
 		if e.pos < len(e.decisions) {
 			v = e.decisions[e.pos].V
 		} else {
+			e.sync()
 			if r := e.sv.Check(); r != Sat {
 				if r == Unknown {
 					e.inconclusive++
@@ -534,6 +570,7 @@ func (e *Exec) branchV(c *Term, v uint64) bool {
 		return d.B
 	}
 	// the true side is feasible by construction (v came from a model)
+	e.sync()
 	rf := e.sv.CheckWith(e.ts.Not(c))
 	if rf == Unsat {
 		e.decisions = append(e.decisions, Decision{B: true, V: v, Forced: true})
@@ -565,6 +602,7 @@ func (e *Exec) assume(c *Term) {
 		e.addPC(c)
 		return
 	}
+	e.sync()
 	r := e.sv.CheckWith(c)
 	if r == Unsat {
 		panic(pathEnd{"assume", ""})
@@ -588,6 +626,7 @@ func (e *Exec) obligation(c *Term, msg string) {
 		return
 	}
 	neg := e.ts.Not(c)
+	e.sync()
 	r := e.sv.CheckWith(neg)
 	if r == Unsat {
 		e.discharged++
@@ -605,6 +644,9 @@ func (e *Exec) obligation(c *Term, msg string) {
 		}
 		e.sv.Push()
 		e.sv.Assert(neg)
+		for _, iv := range e.inputs {
+			e.sv.declare(iv.t)
+		}
 		if k.Region != "" {
 			e.sv.send("(assert (not " + k.Region + "))")
 		}
@@ -668,6 +710,7 @@ func (e *Exec) finishPanic(res *PathResult, p targetPanic) {
 			return
 		}
 	}
+	e.sync()
 	if e.sv.Check() == Sat {
 		res.Model = e.model()
 	}
